@@ -170,10 +170,13 @@ theorem reset_position_latest (cfg : Cfg) (hl : cfg.latest = true) (s : St) (hs 
 
 /-- Step level: the only action that changes the committed offset of partition `j` is the
 completion (reference count reaching zero) of an in-flight, not yet completed batch of `j`;
-the new committed offset is that batch's `hi + 1`.  In particular emitting a batch commits nothing. -/
+the new committed offset is that batch's `hi + 1`.  In particular emitting a batch commits nothing,
+and neither does a failure below the source (`fail`), nor the "completion" of a batch whose
+handling raised (`b.failed = false`). -/
 theorem commit_only_on_completion (cfg : Cfg) (s : St) (a : Act) (j : Nat) (q q' : Part)
     (hq : s.parts[j]? = some q) (hq' : (step cfg s a).parts[j]? = some q') (hne : q'.committed ≠ q.committed) :
-    ∃ i b, a = .complete j i ∧ q.batches[i]? = some b ∧ b.done = false ∧ q'.committed = b.hi + 1 :=
+    ∃ i b, a = .complete j i ∧ q.batches[i]? = some b ∧ b.done = false ∧ b.failed = false ∧
+      q'.committed = b.hi + 1 :=
   committed_change cfg s a j q q' hq hq' hne
 
 /-- At every instant of an incarnation the committed offset is either the one found at (re)start
@@ -334,6 +337,76 @@ theorem crash_redelivers_unprocessed (cfg : Cfg) (hmb : 0 < cfg.maxBatch) (s : S
       omega
   exact redelivery cfg hmb _ hs2 acts2 hnr2 hnt2 j q2 q4 _ h2 hres hknown h4 o hc (by omega) hpolls
 
+/-! ## Failures below the source -/
+
+/-- **A batch whose processing raised is never committed.**  At every instant of an incarnation
+(any action sequence: later polls, completions of other batches in any order, more failures,
+truncation, …) a batch marked failed is not done, and the committed offset of its partition is not
+its `hi + 1` — "an offset is committed only when the batch ending just before it has been
+completely processed".  (A LATER batch of the partition completing commits *its* `hi + 1`; that is
+out-of-order completion, excluded by the proviso of the property, see
+`out_of_order_completion_loses_messages`.) -/
+theorem failed_batch_never_committed (cfg : Cfg) (s : St) (hs : StWF cfg s) (acts : List Act) (hnr : NoRestart acts)
+    (j : Nat) (q1 q2 : Part) (h1 : (step cfg s .restart).parts[j]? = some q1)
+    (h2 : (run cfg (step cfg s .restart) acts).parts[j]? = some q2)
+    (i : Nat) (b : Batch) (hb : q2.batches[i]? = some b) (hf : b.failed = true) :
+    b.done = false ∧ q2.committed ≠ b.hi + 1 := by
+  have hs2 : StWF cfg (run cfg (step cfg s .restart) acts) := stwf_run acts (stwf_step .restart hs)
+  have hw2 := hs2 j q2 h2
+  have hbm : b ∈ q2.batches := List.mem_of_getElem? hb
+  have hnd : b.done = false := hw2.nf b hbm hf
+  refine ⟨hnd, ?_⟩
+  have hbb := ranges_bounded cfg _ hs2 j q2 h2 b hbm
+  rcases commit_after_processing cfg s hs acts hnr j q1 q2 h1 h2 with hc | ⟨b', hb', hd', hc⟩
+  · -- still the offset found at (re)start, which is at or below the first range
+    by_cases hn : q1.committed = NONE
+    · have hN : NONE = -1001 := rfl
+      omega
+    · obtain ⟨b0, hb0⟩ : ∃ b0, q2.batches.head? = some b0 := by
+        cases hbs : q2.batches with
+        | nil => rw [hbs] at hbm; simp at hbm
+        | cons x xs => exact ⟨x, rfl⟩
+      have h0 : q2.batches[0]? = some b0 := by simpa [List.head?_eq_getElem?] using hb0
+      have hst := starts_at_committed cfg s hs acts hnr j q1 q2 h1 hn h2 b0 hb0
+      have hle : b0.lo ≤ b.lo := by
+        cases i with
+        | zero => rw [h0] at hb; cases hb; exact Int.le_refl _
+        | succ i' =>
+          have := ranges_ordered_disjoint cfg _ hs2 j q2 h2 0 (i' + 1) b0 b h0 hb (by omega)
+          have := ranges_bounded cfg _ hs2 j q2 h2 b0 (List.mem_of_getElem? h0)
+          omega
+      omega
+  · -- `hi + 1` of a done batch, which is a different batch with a disjoint range
+    obtain ⟨k, hk⟩ := List.getElem?_of_mem hb'
+    have hbb' := ranges_bounded cfg _ hs2 j q2 h2 b' hb'
+    rcases Nat.lt_trichotomy i k with hlt | heq | hgt
+    · have := ranges_ordered_disjoint cfg _ hs2 j q2 h2 i k b b' hb hk hlt; omega
+    · subst heq; rw [hb] at hk; cases hk; rw [hnd] at hd'; cases hd'
+    · have := ranges_ordered_disjoint cfg _ hs2 j q2 h2 k i b' b hk hb hgt; omega
+
+/-- **… and after crash + restart its messages are delivered again** (instance of
+`crash_redelivers_unprocessed`: a failed batch is a batch that is not done; "in order" now means
+that no later batch of the partition was completed after the failure). -/
+theorem failed_batch_redelivered (cfg : Cfg) (hmb : 0 < cfg.maxBatch) (s : St) (hs : StWF cfg s)
+    (acts1 : List Act) (hnr1 : NoRestart acts1) (hnt1 : NoTruncate acts1)
+    (hio : InOrder cfg (step cfg s .restart) acts1)
+    (acts2 : List Act) (hnr2 : NoRestart acts2) (hnt2 : NoTruncate acts2)
+    (j : Nat) (q1 q2 q4 : Part)
+    (h1 : (step cfg s .restart).parts[j]? = some q1)
+    (hret : q1.committed = NONE ∨ q1.low ≤ q1.committed)
+    (h2 : (run cfg (step cfg s .restart) acts1).parts[j]? = some q2)
+    (hresume : q2.committed ≠ NONE ∨ cfg.latest = false)
+    (hknown : j < cfg.npartCfg.getD (run cfg (step cfg s .restart) acts1).parts.length ∨ cfg.refresh = true)
+    (h4 : (run cfg (step cfg (run cfg (step cfg s .restart) acts1) .restart) acts2).parts[j]? = some q4)
+    (b : Batch) (hb : b ∈ q2.batches) (hfail : b.failed = true) (o : Int) (ho1 : b.lo ≤ o) (ho2 : o ≤ b.hi)
+    (hpolls : o < (if q2.committed ≠ NONE then q2.committed else q2.low)
+                    + ((countPolls acts2 * cfg.maxBatch : Nat) : Int)) :
+    ∃ b' ∈ q4.batches, b'.lo ≤ o ∧ o ≤ b'.hi := by
+  have hs2 : StWF cfg (run cfg (step cfg s .restart) acts1) := stwf_run acts1 (stwf_step .restart hs)
+  have hnd : b.done = false := (hs2 j q2 h2).nf b hb hfail
+  exact crash_redelivers_unprocessed cfg hmb s hs acts1 hnr1 hnt1 hio acts2 hnr2 hnt2 j q1 q2 q4 h1 hret h2
+    hresume hknown h4 b hb hnd o ho1 ho2 hpolls
+
 /-! ## Partitions added while the source runs (`refresh_partitions`) -/
 
 /-- A partition created on the broker during an incarnation (after the first loop iteration, i.e.
@@ -393,7 +466,7 @@ theorem out_of_order_completion_loses_messages :
     let crash := run cfgEarliest (init 1) [.produce 0 4, .restart, .poll, .poll, .complete 0 1]
     let after := run cfgEarliest crash [.restart, .poll, .poll]
     crash.parts = [{ low := 0, high := 4, committed := 4, known := true, pos := 4,
-                     batches := [⟨0, 1, false⟩, ⟨2, 3, true⟩] }] ∧
+                     batches := [⟨0, 1, false, false⟩, ⟨2, 3, true, false⟩] }] ∧
     after.parts = [{ low := 0, high := 4, committed := 4, known := true, pos := 4, batches := [] }] := by
   decide
 
@@ -406,8 +479,18 @@ theorem latest_uncommitted_restart_skips :
     let crash := run cfgLatest (init 1) [.restart, .poll, .produce 0 2, .poll]
     let after := run cfgLatest crash [.restart, .poll, .poll, .poll]
     crash.parts = [{ low := 0, high := 2, committed := NONE, known := true, pos := 2,
-                     batches := [⟨0, 1, false⟩] }] ∧
+                     batches := [⟨0, 1, false, false⟩] }] ∧
     after.parts = [{ low := 0, high := 2, committed := NONE, known := true, pos := 2, batches := [] }] := by
+  decide
+
+/-- The polling loop survives a failure and a later batch completing then commits past the failed
+one (what the unchanged code does; it is out-of-order completion): ranges `[0,1]`, `[2,3]`; the
+handling of `[0,1]` raises; `[2,3]` completes and commits 4; the failed batch is still there, not
+done, never committed (4 ≠ 1 + 1), and a restart would begin at 4. -/
+theorem failure_then_later_completion_commits_past_it :
+    (run cfgEarliest (init 1) [.produce 0 4, .restart, .poll, .fail 0 0, .poll, .complete 0 0, .complete 0 1]).parts =
+      [{ low := 0, high := 4, committed := 4, known := true, pos := 4,
+         batches := [⟨0, 1, false, true⟩, ⟨2, 3, true, false⟩] }] := by
   decide
 
 /-! ## Non-vacuity: the hypotheses are satisfied by real runs -/
@@ -427,7 +510,7 @@ example :
   exact crash_redelivers_unprocessed cfgEarliest (by decide) s hs acts1 (noRestart_of_B (by decide))
     (noTruncate_of_B (by decide)) (inOrder_of_B _ _ _ (by decide)) acts2 (noRestart_of_B (by decide))
     (noTruncate_of_B (by decide))
-    0 _ _ _ rfl (by decide) rfl (by decide) (by decide) rfl ⟨2, 3, false⟩ (by decide) rfl 3 (by decide) (by decide) (by decide)
+    0 _ _ _ rfl (by decide) rfl (by decide) (by decide) rfl ⟨2, 3, false, false⟩ (by decide) rfl 3 (by decide) (by decide) (by decide)
 
 /-- `starts_at_committed` is not vacuous: a restart with committed offset 2. -/
 example :
@@ -444,7 +527,25 @@ example :
     let cfg : Cfg := { maxBatch := 2, refresh := true, latest := true, npartCfg := none }
     let s := run cfg (init 1) [.restart, .poll]
     s.resetLatest = false ∧ s.parts[1]? = none ∧
-    ((run cfg (step cfg s (.addPartitions 1)) [.produce 1 3, .poll]).parts[1]?.map (·.batches)) = some [⟨0, 1, false⟩] := by
+    ((run cfg (step cfg s (.addPartitions 1)) [.produce 1 3, .poll]).parts[1]?.map (·.batches)) = some [⟨0, 1, false, false⟩] := by
   decide
+
+/-- `failed_batch_never_committed` / `failed_batch_redelivered` are not vacuous: batch `[0,1]` is
+processed and committed, the handling of `[2,3]` raises, the process crashes; all hypotheses hold
+and offset 3 is delivered again by the restarted source. -/
+example :
+    let s := run cfgEarliest (init 1) [.produce 0 5]
+    let acts1 : List Act := [.poll, .complete 0 0, .poll, .fail 0 1, .complete 0 1, .poll]
+    let acts2 : List Act := [.poll, .poll]
+    (∃ q2, (run cfgEarliest (step cfgEarliest s .restart) acts1).parts[0]? = some q2 ∧ q2.committed = 2) ∧
+    ∃ q4, (run cfgEarliest (step cfgEarliest (run cfgEarliest (step cfgEarliest s .restart) acts1) .restart) acts2).parts[0]? = some q4 ∧
+      ∃ b' ∈ q4.batches, b'.lo ≤ 3 ∧ 3 ≤ b'.hi := by
+  intro s acts1 acts2
+  have hs : StWF cfgEarliest s := reachable_wf _ _ _
+  refine ⟨⟨_, rfl, by decide⟩, _, rfl, ?_⟩
+  exact failed_batch_redelivered cfgEarliest (by decide) s hs acts1 (noRestart_of_B (by decide))
+    (noTruncate_of_B (by decide)) (inOrder_of_B _ _ _ (by decide)) acts2 (noRestart_of_B (by decide))
+    (noTruncate_of_B (by decide))
+    0 _ _ _ rfl (by decide) rfl (by decide) (by decide) rfl ⟨2, 3, false, true⟩ (by decide) rfl 3 (by decide) (by decide) (by decide)
 
 end StreamzVerif.Kafka
